@@ -2,6 +2,7 @@ package main
 
 import (
 	"fmt"
+	"go/token"
 	"go/types"
 	"strings"
 
@@ -10,7 +11,7 @@ import (
 
 func init() {
 	register("C14", propMeta{
-		Explanation: "E-PANIC + E-CONST + E-GUARD over the broker's HTTP surface. O-0: the routes registered in main are enumerated from the http.Handle/HandleFunc calls. O-1: from every handler entry point (ServeHTTP methods, handler functions reached through the handler field, metric callbacks) no repository code path contains an explicit panic, Fatal/Exit or undischarged single-value assertion; the Prometheus With() panics are discharged by O-1b label-set agreement (literal key set of every prometheus.Labels{...} equals the label names given to that vector's constructor). O-2: a request body is only ever read through http.MaxBytesReader(w, r.Body, 100000) and a failed read answers 4xx without reaching the IPC layer. O-3: after each IPC call the success output is behind err == nil and every error path writes a 4xx/5xx status before returning. O-4: the legacy shim and the versioned path share the single ClientOffers call site. O-5 no unbounded wait inside a handler: the channel-rendezvous obligations of C04 (reply obligation, abandonable peer, claimed means committed, deregistration, lock hygiene) are evaluated here as well, under rule names prefixed O-5/C04. A handler panic makes net/http drop the connection without a response, so each clause is a necessary condition of 'every request gets a well-formed response'. Added after the second seeding round: O-6/C02 the Broker loop's poll goroutine works on its own poll (no captured loop variable) and the broker rows of the guarded-by table hold (an unlocked iteration of the id map is a fatal runtime error for the whole process). Added after the third seeding round: O-1d every status the legacy shim writes is a constant or comes from a table whose miss case yields a valid status. Added after the fourth seeding round: O-1e/O-1f the index and nil-error obligations on everything reachable from a handler; O-1g a WriteTimeout or TimeoutHandler of the broker's server is a constant above ClientTimeout and ProxyTimeout; O-6/C20 the broker's guarded-by rows (an unlocked map write is a fatal 'concurrent map writes' that answers nobody).",
+		Explanation: "E-PANIC + E-CONST + E-GUARD over the broker's HTTP surface. O-0: the routes registered in main are enumerated from the http.Handle/HandleFunc calls. O-1: from every handler entry point (ServeHTTP methods, handler functions reached through the handler field, metric callbacks) no repository code path contains an explicit panic, Fatal/Exit or undischarged single-value assertion; the Prometheus With() panics are discharged by O-1b label-set agreement (literal key set of every prometheus.Labels{...} equals the label names given to that vector's constructor). O-2: a request body is only ever read through http.MaxBytesReader(w, r.Body, 100000) and a failed read answers 4xx without reaching the IPC layer. O-3: after each IPC call the success output is behind err == nil and every error path writes a 4xx/5xx status before returning. O-4: the legacy shim and the versioned path share the single ClientOffers call site. O-5 no unbounded wait inside a handler: the channel-rendezvous obligations of C04 (reply obligation, abandonable peer, claimed means committed, deregistration, lock hygiene) are evaluated here as well, under rule names prefixed O-5/C04. A handler panic makes net/http drop the connection without a response, so each clause is a necessary condition of 'every request gets a well-formed response'. Added after the second seeding round: O-6/C02 the Broker loop's poll goroutine works on its own poll (no captured loop variable) and the broker rows of the guarded-by table hold (an unlocked iteration of the id map is a fatal runtime error for the whole process). Added after the third seeding round: O-1d every status the legacy shim writes is a constant or comes from a table whose miss case yields a valid status. Added after the fourth seeding round: O-1e/O-1f the index and nil-error obligations on everything reachable from a handler; O-1g a WriteTimeout or TimeoutHandler of the broker's server is a constant above ClientTimeout and ProxyTimeout; O-6/C20 the broker's guarded-by rows (an unlocked map write is a fatal 'concurrent map writes' that answers nobody). Added after the fifth seeding round: O-1h no handler sets Content-Length or Transfer-Encoding; O-7/C19 zeroMetrics re-creates every per-period map NewMetrics created (a nil map panics in the next poll with the metrics lock held); the legacy path is confined to bodies starting with '{'.",
 		NotDecided:  "net/http's own behaviour, byte-level well-formedness of responses, timing (C04), panics inside third-party libraries other than the label-mismatch panic of prometheus With().",
 		Assumptions: []string{"third-party/stdlib callees do not panic except prometheus With()/GetMetricWith on label mismatch", "net/http recovers handler panics by closing the connection (the behaviour the property forbids)"},
 	}, runC14)
@@ -232,6 +233,35 @@ func runC14(c *Ctx) {
 		c.prefix = ""
 	}
 
+	// the daily rotation leaves every per-period map usable (C19's obligation; a nil map panics in the next poll
+	// with metrics.lock held, after which every request hangs)
+	c.prefix = "O-7/C19:"
+	c.checkCountryMapsReset(p.Fn("broker", "NewMetrics"), p.Fn("broker", "(*Metrics).zeroMetrics"))
+	c.prefix = ""
+
+	// net/http frames the reply itself: a handler that announces a Content-Length and then writes another body (the
+	// legacy shim replaces the body after the IPC call) sends a response the client cannot read to the end
+	{
+		rule := "O-1h handlers leave the framing to net/http"
+		bad := 0
+		for _, fn := range reached {
+			if p.Rel(fn) != "broker" {
+				continue
+			}
+			for _, ci := range callsIn(fn) {
+				if n := calleeName(ci); n == "(net/http.Header).Set" || n == "(net/http.Header).Add" {
+					if k, ok := constString(ci.Common().Args[1]); ok && (strings.EqualFold(k, "Content-Length") || strings.EqualFold(k, "Transfer-Encoding")) {
+						bad++
+						c.viol(rule, p.FnName(fn)+" sets "+k, p.instrPos(ci), "the handler fixes the length of the reply by hand: any later change of the body (legacy translation, error status) yields a response that is shorter or longer than announced")
+					}
+				}
+			}
+		}
+		if bad == 0 {
+			c.ok(rule, "no broker handler sets Content-Length or Transfer-Encoding", "-", "")
+		}
+	}
+
 	// ---- O-1d status codes are constants ----
 	// net/http panics on WriteHeader(code) with code < 100 or > 999: a status looked up or computed at run
 	// time (a table with a missing entry yields 0) turns an unexpected value into a dropped connection
@@ -391,13 +421,27 @@ func constLabelValues(v ssa.Value) string {
 func (c *Ctx) checkLegacyShim(rule string) {
 	p := c.P
 	if co := p.Fn("broker", "clientOffers"); co != nil {
-		sites := callsTo(co, "(*broker.IPC).ClientOffers")
-		c.check(len(sites) == 1, rule, "broker.clientOffers calls (*IPC).ClientOffers once", p.Pos(co.Pos()),
-			"one call site shared by the legacy and the versioned format", fmt.Sprintf("%d call sites of ClientOffers in clientOffers", len(sites)))
+		var sites []ssa.CallInstruction
+		for _, d := range deepCalls(co, 2, "(*broker.IPC).ClientOffers") {
+			if ci, ok := d.Top.(ssa.CallInstruction); ok {
+				sites = append(sites, ci)
+			}
+		}
+		twice := false
+		for _, a := range sites {
+			for _, b := range sites {
+				if canFollow(a, b) {
+					twice = true
+				}
+			}
+		}
+		c.check(len(sites) >= 1 && !twice, rule, "broker.clientOffers calls (*IPC).ClientOffers once", p.Pos(co.Pos()),
+			"the legacy and the versioned format reach the same handler, once per request", fmt.Sprintf("%d call sites of ClientOffers in clientOffers (one request can reach the handler twice: %v)", len(sites), twice))
 		// the legacy request is built from the body and the NAT header
 		found := false
-		allInstrs(co, func(in ssa.Instruction) {
-			if ci, ok := in.(ssa.CallInstruction); ok && isCallTo(ci, "(*common/messages.ClientPollRequest).EncodeClientPollRequest") {
+		for _, d := range deepCalls(co, 2, "(*common/messages.ClientPollRequest).EncodeClientPollRequest") {
+			in := d.In
+			if ci, ok := in.(ssa.CallInstruction); ok {
 				recv := ci.Common().Args[0]
 				offer := structLitField(recv, "Offer")
 				nat := structLitField(recv, "NAT")
@@ -411,10 +455,95 @@ func (c *Ctx) checkLegacyShim(rule string) {
 					return s == "Snowflake-NAT-Type"
 				})
 				found = true
+				// the legacy path is taken exactly for bodies that start with '{' (everything else, a missing or unknown
+				// version line included, goes to the versioned decoder and gets its error)
+				{
+					lfn := in.Parent()
+					brace := condEdges(lfn, true, func(a Atom) bool {
+						if a.Op != token.EQL {
+							return false
+						}
+						for _, pr := range [][2]ssa.Value{{a.X, a.Y}, {a.Y, a.X}} {
+							k, okk := constInt(pr[1])
+							if !okk || k != '{' {
+								continue
+							}
+							switch x := strip(pr[0]).(type) {
+							case *ssa.UnOp:
+								if ia, okia := x.X.(*ssa.IndexAddr); okia {
+									if i0, ok0 := constInt(ia.Index); ok0 && i0 == 0 {
+										return true
+									}
+								}
+							case *ssa.Index:
+								if i0, ok0 := constInt(x.Index); ok0 && i0 == 0 {
+									return true
+								}
+							}
+						}
+						return false
+					})
+					// or a flag computed as "len(body) > 0 && body[0] == '{'" and tested later
+					isBraceCmp := func(v ssa.Value) bool {
+						a, pos := normCond(v)
+						if a.Op != token.EQL || !pos {
+							return false
+						}
+						for _, pr := range [][2]ssa.Value{{a.X, a.Y}, {a.Y, a.X}} {
+							if k, okk := constInt(pr[1]); okk && k == '{' {
+								switch x := strip(pr[0]).(type) {
+								case *ssa.UnOp:
+									if ia, okia := x.X.(*ssa.IndexAddr); okia {
+										if i0, ok0 := constInt(ia.Index); ok0 && i0 == 0 {
+											return true
+										}
+									}
+								case *ssa.Index:
+									if i0, ok0 := constInt(x.Index); ok0 && i0 == 0 {
+										return true
+									}
+								}
+							}
+						}
+						return false
+					}
+					brace = append(brace, boolEdges(lfn, true, func(v ssa.Value) bool {
+						ph, isPhi := v.(*ssa.Phi)
+						if !isPhi {
+							return false
+						}
+						saw := false
+						for _, lf := range valueLeaves(ph, nil) {
+							if k, isC := lf.V.(*ssa.Const); isC && k.Value != nil && k.Value.String() == "false" {
+								continue
+							}
+							if !isBraceCmp(lf.V) {
+								return false
+							}
+							saw = true
+						}
+						return saw
+					})...)
+					okBrace := len(brace) > 0 && reachableWithout(lfn, in, brace) == nil
+					if !okBrace && d.Top != d.In {
+						// the test may be in clientOffers while the legacy request is built in a helper
+						if topI, okT := d.Top.(ssa.Instruction); okT {
+							b2 := condEdges(co, true, func(a Atom) bool {
+								if a.Op != token.EQL {
+									return false
+								}
+								k, okk := constInt(a.Y)
+								return okk && k == '{'
+							})
+							okBrace = len(b2) > 0 && reachableWithout(co, topI, b2) == nil
+						}
+					}
+					c.check(okBrace, rule, "broker.clientOffers treats a body as legacy exactly when it starts with '{'", p.instrPos(in), "", "the legacy (bare SDP) path is not confined to bodies whose first byte is '{': a poll with a missing or unknown version line is answered in the legacy way (status codes, or handed to a proxy as an offer) instead of getting the versioned error")
+				}
 				c.check(okOffer && okNAT, rule, "broker.clientOffers legacy request fields", p.instrPos(in),
 					"Offer = request body, NAT = Snowflake-NAT-Type header", fmt.Sprintf("legacy request not built from body/header (offer ok=%v, nat ok=%v)", okOffer, okNAT))
 			}
-		})
+		}
 		if !found {
 			c.undecided(rule, "broker.clientOffers legacy request fields", p.Pos(co.Pos()), "no EncodeClientPollRequest call found")
 		}
@@ -527,7 +656,31 @@ func (c *Ctx) checkIPCErrorMapping(reached []*ssa.Function) {
 			if !ok {
 				continue
 			}
+			if fn.Synthetic != "" {
+				continue // a bound-method wrapper hands the error to whoever called the function value
+			}
 			callee := staticCallee(call)
+			if callee == nil {
+				// a call through a function value (an IPC method handed over as a parameter): its possible targets
+				if cg := p.CallGraph(); cg != nil && cg.Nodes[fn] != nil {
+					for _, e := range cg.Nodes[fn].Out {
+						if e.Site != ssa.CallInstruction(call) || e.Callee == nil {
+							continue
+						}
+						t := e.Callee.Func
+						if strings.HasPrefix(t.Synthetic, "bound method wrapper") {
+							if obj, okm := t.Object().(*types.Func); okm {
+								if real := p.SSA.FuncValue(obj); real != nil {
+									t = real
+								}
+							}
+						}
+						if t.Signature.Recv() != nil && ipcMethods[t.Name()] {
+							callee = t
+						}
+					}
+				}
+			}
 			if callee == nil || callee.Signature.Recv() == nil || !ipcMethods[callee.Name()] {
 				continue
 			}
